@@ -125,7 +125,111 @@ func bigCase(s []int, d, m, mode, k int) Case {
 	if k%4 == 3 {
 		c.Nest = 1 + k%(n+2)
 	}
+	if k%8 == (k/8)%8 { // changing GOMAXPROCS stops the world twice: one case in eight (spread over the shards)
+		c.Procs = procsList[(k/8)%len(procsList)]
+	}
 	return c
+}
+
+// procsList: the GOMAXPROCS settings tried (the box has 16 cores; 0 = leave it alone).
+var procsList = []int{1, 2, 3, 5, 6, 7}
+
+// largeSlice: n elements over d distinct values. kind 0: pseudo-random; 1: periodic (i%d); 2: ascending blocks (every value first
+// appears at a different distance from the start, the last ones late: a chunked implementation meets new keys in every chunk);
+// 3: descending blocks with value 0 once at the very end; 4: all equal except one other value at a pseudo-random position.
+func largeSlice(n, d, kind int) []int {
+	s := make([]int, n)
+	g := lcg(n + d)
+	for i := range s {
+		switch kind % 5 {
+		case 0:
+			s[i] = g.next(d)
+		case 1:
+			s[i] = i % d
+		case 2:
+			s[i] = int(int64(i) * int64(d) / int64(n))
+		case 3:
+			s[i] = d - 1 - int(int64(i)*int64(d-1)/int64(n))
+		case 4:
+			s[i] = d - 1
+		}
+	}
+	switch kind % 5 {
+	case 3:
+		s[n-1] = 0
+	case 4:
+		s[g.next(n)] = 0
+	}
+	return s
+}
+
+// enumLarge: lengths around 2^14, 2^15, 2^16 and 2^17 with few distinct values (the helpers that compare every element with
+// every distinct value stay affordable), each with another GOMAXPROCS; and short slices with more than 1 MiB of unused capacity.
+func enumLarge(tier string, emit func(Case) bool) bool {
+	ns := []int{1<<14 - 1, 1 << 14, 1<<14 + 1, 1<<15 - 1, 1 << 15, 1<<15 + 1, 1<<16 - 1, 1 << 16, 1<<16 + 1, 1<<17 + 1}
+	ds := []int{3, 40, 300, 7}
+	if tier == "thorough" {
+		ns = append(ns, 1<<17-1, 1<<18+1, 3<<15, 5<<14+1)
+		ds = append(ds, 1025, 2, 4097)
+	}
+	k := 0
+	for i, n := range ns {
+		reps := 1
+		if tier == "thorough" {
+			reps = 4
+		}
+		for r := 0; r < reps; r++ {
+			k++
+			d := ds[(i+r*3)%len(ds)]
+			m := d + 1
+			if k%3 == 1 {
+				m = 2
+			}
+			c := bigCase(largeSlice(n, d, k), d, m, k/2, 4*k) // 4k: no nested calls, J = n (k%3==0), n-1 or n/2
+			c.Procs = append(procsList, 0, 4, 16)[k%(len(procsList)+3)]
+			if !emit(c) {
+				return false
+			}
+		}
+	}
+	// every GOMAXPROCS setting against a length just above each of 2^14, 2^15 and 2^16 (thorough: against every length), few distinct values
+	bands := []int{1<<14 + 1, 1<<15 + 1, 1<<16 + 1}
+	if tier == "thorough" {
+		bands = ns
+	}
+	for _, procs := range append(procsList, 4, 16) {
+		if tier != "thorough" && (procs == 4 || procs == 16) {
+			continue
+		}
+		for _, n := range bands {
+			k++
+			d := []int{3, 7, 5}[k%3]
+			c := bigCase(largeSlice(n+k%3, d, k), d, []int{d + 1, 2}[k%2], k/2, 4*k)
+			c.Procs = procs
+			if !emit(c) {
+				return false
+			}
+		}
+	}
+	// huge unused capacity (poisoned, compared after every call)
+	for i, spare := range []int{1<<17 + 1, 1 << 18, 1<<20 + 3} {
+		for _, d := range []int{0, 1, 9, 70} {
+			k++
+			var s []int
+			if d > 0 {
+				s = bigSlice(bigShapes[(i+d)%len(bigShapes)], d)
+			}
+			c := bigCase(s, d+1, d/2+1, k/2, 4*k+1)
+			c.Spare, c.Procs = spare, 0
+			if !emit(c) {
+				return false
+			}
+		}
+		if tier != "thorough" {
+			break
+		}
+	}
+	return true
 }
 
 // bigDs: the numbers of distinct values tried around every power of two.
@@ -174,6 +278,14 @@ func enumBig(shard, shards int, tier string, yield func(Case) bool) {
 			return
 		}
 	}
+	j := 0
+	enumLarge(tier, func(c Case) bool {
+		j++
+		if j%shards != shard {
+			return true
+		}
+		return yield(c)
+	})
 }
 
 func genBig(t *rapid.T) Case {
@@ -204,8 +316,14 @@ var specBig = pbt.Register(&pbt.Spec[Case]{
 		"ascending then descending; 2d+3 pseudo-random draws; 0..d-1 followed by the last three values and the first one; one value recurring after every five new ones) " +
 		"x modulus m in {d+1 (every value its own key/class), d/2+1 (keys with several distinct members)}, plus m = 3 and 2 (few groups with very many members); values as they are, MaxInt-v, MinInt+v or v<<32 in turn; " +
 		"exclude/unwanted list = every third value (+ the slice's end values); j in {n, n-1, n/2}; one case in four with nested calls. " +
+		"Then lengths 2^14-1, 2^14, 2^14+1, 2^15-1, 2^15, 2^15+1, 2^16-1, 2^16, 2^16+1, 2^17+1 (thorough: also 2^17-1, 2^18+1, 3*2^15, 5*2^14+1, four cases each) with 3, 7, 40 or 300 (thorough: also 2, 1025, 4097) distinct values " +
+		"arranged pseudo-randomly, periodically, in ascending blocks (new values keep appearing up to the end), in descending blocks with a new value at the very end, or all equal but one, " +
+		"each of these under another GOMAXPROCS (1, 2, 3, 5, 6, 7, 4, 16 or the default); then every GOMAXPROCS in {1, 2, 3, 5, 6, 7} against a length of 2^14+1.., 2^15+1.. and 2^16+1..(+0..2) with 3, 5 or 7 distinct values " +
+		"(thorough: {1, 2, 3, 4, 5, 6, 7, 16} against every length); " +
+		"and slices of 0, 2, 18 and 140 elements with 2^17+1 (thorough: also 2^18, 2^20+3) elements of poisoned unused capacity. One case in eight (every large one) runs under " +
+		"runtime.GOMAXPROCS(1, 2, 3, 5, 6 or 7; large ones also 4 and 16) instead of the box's 16. " +
 		"rapid: p drawn from 8..256, d in p-2..1.5p, n in d+1..2d+8 random values below d with an ascending prefix of random length, m in {d+1, d/2+1, random}, same transforms. " + sliceRule,
-	Enum: enumBig, Gen: genBig, Run: Run, Quick: 400, Thorough: 3000, CaseCPU: 0,
+	Enum: enumBig, Gen: genBig, Run: Run, Quick: 100, Thorough: 3000, CaseCPU: 0, Replicas: 4, ReplicaEvery: 16, // quick: four shards
 })
 
 func TestC14Big(t *testing.T) { pbt.Check(t, specBig) }
